@@ -224,6 +224,7 @@ Definition verdict (c : case) : list nat :=
                    | Some d => let (d', _) := fuse_steps (scatter_dsk d) (c_fsteps c) in
                                fst (fuse_steps_weak (scatter_dsk d) (c_fsteps c)) && dsk_same d' o
                                && inline_only (c_fsteps c)      (* rename_keys=False: no alias steps *)
+                               && snd (fuse_steps d (c_fsteps c))   (* legal on the unscattered dict too: hypothesis of optimize_preserves *)
                                && avoids results (c_fsteps c) && nodupp (dkeys (scatter_dsk d))
                    | None => false
                    end
